@@ -16,8 +16,8 @@ from harness.c06_histogram import cut
 
 PROPERTY = "C11"
 B = h.bounds(
-    quick=dict(EDGES=3, FLOW=2, NAN=5, DIM2=0, XMAX=4),
-    thorough=dict(EDGES=4, FLOW=3, NAN=6, DIM2=1, XMAX=6),
+    quick=dict(EDGES=3, FLOW=2, NAN=5, DIM2=1, XMAX=4, N2=1, K2=1),
+    thorough=dict(EDGES=4, FLOW=3, NAN=6, DIM2=1, XMAX=6, N2=2, K2=3),
 )
 ANALYSES = ["Sum", "(add3, Sum)", "FillCompute(Count())", "(Variable, Sum) - mutates context",
             "StoreFilled - arrival order", "Split([Sum, Count]) - two results per cell"]
@@ -78,9 +78,9 @@ def _first(v):
 def as_fcs2(kind):
     """Analyses for 2-d (pair) data."""
     if kind == 0:
-        return FillComputeSeq(FillCompute(Count()))
-    if kind == 1:
         return FillComputeSeq(StoreFilled())
+    if kind == 1:
+        return FillComputeSeq(FillCompute(Count()))
     return FillComputeSeq(_first, Sum())
 
 
@@ -146,18 +146,18 @@ def check_split_2d(kind: int, wx1: int, wx2: int, wy1: int, wy2: int, n: int,
                    cx0: int, cy0: int, cx1: int, cy1: int) -> bool:
     """
     pre: B.DIM2 == 1
-    pre: 0 <= kind <= 2
+    pre: 0 <= kind < B.K2
     pre: 1 <= wx1 <= 2 and 1 <= wx2 <= 2 and 1 <= wy1 <= 2 and 1 <= wy2 <= 2
-    pre: 0 <= n <= 2
+    pre: 0 <= n <= B.N2
     pre: -1 <= cx0 <= 4 and -1 <= cy0 <= 4 and -1 <= cx1 <= 4 and -1 <= cy1 <= 4
-    pre: h.in_shard(kind + 3 * n)
+    pre: h.in_shard(kind + B.K2 * n)
     post: _
     """
     ex = ey = 0
-    n = h.concrete(n, 0, 2)
+    n = h.concrete(n, 0, B.N2)
     cx = [cx0, cx1][:n]
     cy = [cy0, cy1][:n]
-    kind = h.concrete(kind, 0, 2)
+    kind = h.concrete(kind, 0, B.K2 - 1)
     edges = [[ex, ex + wx1, ex + wx1 + wx2], [ey, ey + wy1, ey + wy1 + wy2]]
     with cut():
         sib = SplitIntoBins(as_fcs2(kind), Variable("xy", _idpair), copy.deepcopy(edges))
@@ -255,7 +255,7 @@ def _pair(v):
 
 
 def check_map_bins(dim: int, n1: int, n2: int, v0: int, v1: int, v2: int, v3: int,
-                   keep_ctx: bool, foreign: bool) -> bool:
+                   keep_ctx: bool, foreign: bool, stateful: bool) -> bool:
     """
     pre: 1 <= dim <= 2
     pre: 1 <= n1 <= 3 and 1 <= n2 <= 2
@@ -284,6 +284,9 @@ def check_map_bins(dim: int, n1: int, n2: int, v0: int, v1: int, v2: int, v3: in
         # the sequence yields (data, context): with drop_bins_context the
         # bins hold data only and context.value gets the bin context
         mb = MapBins(lena.core.Sequence(add3, _pair))
+    elif stateful:
+        # a sequence with state (an accumulator): every cell gets its own copy
+        mb = MapBins(lena.core.Sequence(add3, Sum()))
     else:
         mb = MapBins(add3)
     got = list(mb.run(iter(flow)))
@@ -309,10 +312,11 @@ CONDITIONS = [
                 "check_split_1d(3, 1, 2, 1, 3, 2, 0, 1, 2, 0, True)",
                 "check_split_1d(4, 2, 2, 1, 3, 2, 1, 0, 3, 0, True)",
                 "check_split_1d(2, 2, 2, 1, 2, 2, 1, 4, 3, 0, False)"]),
-    dict(fn="check_split_2d", shards=(9, 9), budget=(90, 1200), tiers=("thorough",),
-         smoke=[]),
+    dict(fn="check_split_2d", shards=(2, 9), budget=(90, 1200),
+         smoke=["check_split_2d(0, 1, 2, 2, 2, 1, -1, 1, 0, 0)", "check_split_2d(0, 1, 2, 2, 2, 1, 0, 0, 0, 0)"]),
     dict(fn="check_iterate_bins", shards=(2, 2), budget=(60, 300),
          smoke=["check_iterate_bins(1, 2, 1, 1, True)", "check_iterate_bins(2, 2, 2, 2, False)"]),
     dict(fn="check_map_bins", shards=(6, 6), budget=(60, 600),
-         smoke=["check_map_bins(1, 3, 1, 1, 0, 1, 0, False, True)", "check_map_bins(2, 2, 2, 1, 0, 1, 1, True, False)"]),
+         smoke=["check_map_bins(1, 3, 1, 1, 0, 1, 0, False, True, False)", "check_map_bins(2, 2, 2, 1, 0, 1, 1, True, False, False)",
+                "check_map_bins(1, 3, 1, 1, 0, 1, 0, False, False, True)"]),
 ]
